@@ -16,6 +16,7 @@ PROPERTY = "C01"
 FUNCTIONS = ["DefaultArgsParser.parse (+ all helpers)", "Args.arguments/options/option/argument/is_option_set/is_argument_set/set_option/set_argument",
              "Option.parse / Argument.parse", "ArgsFormat.get_option/get_argument/has_*", "utils.string.parse_*"]
 PART = {}
+EXTRA_BOUNDS = "also: two skeletons inside a three-level tree of formats whose sibling was used first; every '--n v' spelling on a parser object that rejected a line before; grouped short options on a four-option format (any subset/order of two flags, optionally ended by a required-INTEGER or optional-text option with attached / separate / absent value); INTEGER values in symbolic ranges around 2**53, 10**18, -2**63, 10**40."
 BOUNDS = {"quick": "10 format skeletons (two of them inside a three-level tree of formats whose sibling was used first; value mode x type x nullable x short name, required/optional/multi-valued typed arguments, 2 command names with aliases, base format); "
                    "<= 3 options given, values = 1-2 symbolic characters over {a,1,=,-,space} or str(n) for |n| <= 12 (quick) / 99 (thorough) or boolean/float/null texts, 4 spellings, options inserted at a symbolic place among <= 3 positionals, "
                    "command names spelled by name / alias / omitted, optional '--' followed by 1 token that may start with '-', strict and lenient",
